@@ -10,6 +10,9 @@ def classify(rej):
         return "%s-%s%s" % (ev["e"].lower(), ev.get("ty"), ("-" + ev["cls"]) if ev.get("cls") and ev["cls"] != "eq" else "")
     if ev["e"] == "Sort":
         return "sort-" + ev["impl"]
+    if ev["e"] == "Timeout":
+        first = rej["events"][0]
+        return "does-not-terminate-%s-%s" % (first.get("ty"), first.get("what"))
     if ev["e"] == "Panic":
         return "panic-%s-%s" % (ev.get("ty"), ev.get("what"))
     return ev["e"].lower()
